@@ -106,8 +106,8 @@ def check(case):
     kept = ref.kept(k)
     want_pred = Pk @ ref.Yfit
     want_rec = Pk @ X
-    ny = max(1.0, float(np.abs(ref.Yfit).max()))
-    nx = max(1.0, float(np.abs(X).max()))
+    ny = max(1.0 if float(np.abs(X).max()) >= 0.5 else 0.0, float(np.abs(ref.Yfit).max()))
+    nx = max(1.0 if float(np.abs(X).max()) >= 0.5 else 0.0, float(np.abs(X).max()))
     routes = ROUTES if not case.get("big") else [("auto", "auto"), ("feature", "full"), ("sample", "full")]
     judged = 0
     r.states = 0
